@@ -51,6 +51,7 @@ type phiCand struct {
 }
 
 type boundsProver struct {
+	trueMemo map[*ssa.Function][]*cmpSummary
 	p    *Prog
 	eng  *Engine
 	eff  *Effects
@@ -207,6 +208,16 @@ func (fb *fnBounds) linOf(v ssa.Value, at ssa.Instruction, d int) (lin, bool) {
 func (fb *fnBounds) lenOf(v ssa.Value, at ssa.Instruction, d int) lin {
 	if d > 12 {
 		return linVar("len:" + fb.vid(v, at))
+	}
+	// arrays (and pointers to arrays) have their length in the type
+	{
+		tt := v.Type().Underlying()
+		if pt, ok := tt.(*types.Pointer); ok {
+			tt = pt.Elem().Underlying()
+		}
+		if at, ok := tt.(*types.Array); ok {
+			return linConst(at.Len())
+		}
 	}
 	switch t := v.(type) {
 	case *ssa.Const:
@@ -551,6 +562,128 @@ func (bp *boundsProver) boolSummary(callee *ssa.Function) *cmpSummary {
 	return &cmpSummary{op: cmp.Op, x: x, y: y, fb: cfb}
 }
 
+// trueFacts: comparisons over the entry state that must hold whenever a side-effect-free boolean method
+// returns true (a && chain such as hasMore() && s[i] == c && …). Each is a cmpSummary over
+// callee-relative variables.
+func (bp *boundsProver) trueFacts(callee *ssa.Function) []*cmpSummary {
+	if bp.trueMemo == nil {
+		bp.trueMemo = map[*ssa.Function][]*cmpSummary{}
+	}
+	if v, ok := bp.trueMemo[callee]; ok {
+		return v
+	}
+	bp.trueMemo[callee] = nil // cycles
+	res := callee.Signature.Results()
+	if res.Len() != 1 || !isBoolType(res.At(0).Type()) || len(callee.Blocks) == 0 {
+		return nil
+	}
+	if s := bp.boolSummary(callee); s != nil {
+		bp.trueMemo[callee] = []*cmpSummary{s}
+		return bp.trueMemo[callee]
+	}
+	// purity: nothing is written
+	for _, b := range callee.Blocks {
+		for _, in := range b.Instrs {
+			switch t := in.(type) {
+			case *ssa.Store, *ssa.MapUpdate, *ssa.Send, *ssa.Go, *ssa.Defer, *ssa.Panic:
+				return nil
+			case *ssa.Call:
+				if _, ok := t.Call.Value.(*ssa.Builtin); ok {
+					continue
+				}
+				c := t.Call.StaticCallee()
+				if c == nil {
+					return nil
+				}
+				if bp.p.InModule(c) {
+					if bp.trueFacts(c) == nil {
+						return nil
+					}
+					continue
+				}
+				if classifyStd(c).Class != stdPure {
+					return nil
+				}
+			}
+		}
+	}
+	cfb := bp.forFn(callee)
+	type cs = map[condFact]bool
+	var cases []cs
+	addCase := func(b *ssa.BasicBlock, extra ssa.Value) {
+		m := cs{}
+		for cf := range cfb.facts[b.Index] {
+			m[cf] = true
+		}
+		if extra != nil {
+			m[condFact{extra, true}] = true
+		}
+		cases = append(cases, m)
+	}
+	var visit func(v ssa.Value, b *ssa.BasicBlock, seen map[ssa.Value]bool)
+	visit = func(v ssa.Value, b *ssa.BasicBlock, seen map[ssa.Value]bool) {
+		if seen[v] {
+			return
+		}
+		seen[v] = true
+		switch t := v.(type) {
+		case *ssa.Const:
+			if t.Value != nil && t.Value.String() == "true" {
+				addCase(b, nil)
+			}
+		case *ssa.Phi:
+			for i, e := range t.Edges {
+				visit(e, t.Block().Preds[i], seen)
+			}
+		default:
+			addCase(b, v)
+		}
+	}
+	for _, b := range callee.Blocks {
+		if ret, ok := b.Instrs[len(b.Instrs)-1].(*ssa.Return); ok {
+			visit(ret.Results[0], b, map[ssa.Value]bool{})
+		}
+	}
+	if len(cases) == 0 {
+		return nil
+	}
+	var out []*cmpSummary
+	for cf := range cases[0] {
+		all := true
+		for _, m := range cases[1:] {
+			if !m[cf] {
+				all = false
+			}
+		}
+		if !all || !cf.pol {
+			continue
+		}
+		switch c := cf.c.(type) {
+		case *ssa.BinOp:
+			x, okx := cfb.linOf(c.X, callee.Blocks[0].Instrs[0], 0)
+			y, oky := cfb.linOf(c.Y, callee.Blocks[0].Instrs[0], 0)
+			if okx && oky && isIntType(c.X.Type()) {
+				switch c.Op {
+				case token.LSS, token.LEQ, token.GTR, token.GEQ, token.EQL:
+					out = append(out, &cmpSummary{op: c.Op, x: x, y: y, fb: cfb})
+				}
+			}
+		case *ssa.Call:
+			if inner := c.Call.StaticCallee(); inner != nil && bp.p.InModule(inner) {
+				for _, s := range bp.trueFacts(inner) {
+					x, okx := cfb.renameCallee(s.x, inner, c, false)
+					y, oky := cfb.renameCallee(s.y, inner, c, false)
+					if okx && oky {
+						out = append(out, &cmpSummary{op: s.op, x: x, y: y, fb: cfb})
+					}
+				}
+			}
+		}
+	}
+	bp.trueMemo[callee] = out
+	return out
+}
+
 // renameCallee maps callee-relative variable names (parameters, entry versions) to the caller's
 // values at call instruction `at`.
 func (fb *fnBounds) renameCallee(l lin, callee *ssa.Function, call ssa.CallInstruction, after bool) (lin, bool) {
@@ -706,6 +839,30 @@ func (fb *fnBounds) condConstraints(c ssa.Value, pol bool, at ssa.Instruction, d
 				return []constraint{geq(fb.lenOf(t.Call.Args[0], t, 0), fb.lenOf(t.Call.Args[1], t, 0), callee.Name()+" is true")}
 			}
 			return nil
+		}
+		if fb.bp.p.InModule(callee) && pol && fb.bp.boolSummary(callee) == nil {
+			var cs []constraint
+			for _, s := range fb.bp.trueFacts(callee) {
+				x, okx := fb.renameCallee(s.x, callee, t, false)
+				y, oky := fb.renameCallee(s.y, callee, t, false)
+				if !okx || !oky {
+					continue
+				}
+				why := fmt.Sprintf("%s() is true", callee.Name())
+				switch s.op {
+				case token.LSS:
+					cs = append(cs, gt(y, x, why))
+				case token.LEQ:
+					cs = append(cs, geq(y, x, why))
+				case token.GTR:
+					cs = append(cs, gt(x, y, why))
+				case token.GEQ:
+					cs = append(cs, geq(x, y, why))
+				case token.EQL:
+					cs = append(cs, eqs(x, y, why)...)
+				}
+			}
+			return cs
 		}
 		if fb.bp.p.InModule(callee) {
 			if s := fb.bp.boolSummary(callee); s != nil {
